@@ -405,13 +405,20 @@ func (p *Project) Render(opts RenderOpts) *Rendered {
 				var sig strings.Builder
 				sig.WriteString("func " + recv + " " + m.Name)
 				ln := len(b.lines)
+				broken := false
 				if m.RawSig != "" {
 					sig.WriteString(m.RawSig)
 				} else {
 					sig.WriteString("(")
 					for i, pr := range m.Params {
 						if i > 0 {
-							sig.WriteString(", ")
+							sig.WriteString(",")
+							if pr.BreakBefore {
+								sig.WriteString("\n\t")
+								broken = true
+							} else {
+								sig.WriteString(" ")
+							}
 						}
 						start := runeLen(sig.String())
 						te := pr.Type.GoExpr(c.Pkg, q)
@@ -421,7 +428,9 @@ func (p *Project) Render(opts RenderOpts) *Rendered {
 						} else {
 							sig.WriteString(pr.GoName + " " + te)
 						}
-						mark("param/"+pr.GoName, ln, start, runeLen(sig.String()))
+						if !broken {
+							mark("param/"+pr.GoName, ln, start, runeLen(sig.String()))
+						}
 					}
 					sig.WriteString(") ")
 					errT := "error"
@@ -435,17 +444,25 @@ func (p *Project) Render(opts RenderOpts) *Rendered {
 						sig.WriteString("(")
 						start := runeLen(sig.String())
 						sig.WriteString(m.Ret.GoExpr(c.Pkg, q) + ", " + errT)
-						mark("results", ln, start, runeLen(sig.String()))
+						if !broken {
+							mark("results", ln, start, runeLen(sig.String()))
+						}
 						sig.WriteString(")")
 					} else {
 						start := runeLen(sig.String())
 						sig.WriteString(errT)
-						mark("results", ln, start, runeLen(sig.String()))
+						if !broken {
+							mark("results", ln, start, runeLen(sig.String()))
+						}
 					}
 				}
 				sig.WriteString(" {")
-				b.line(sig.String())
-				mark("func", ln, 0, runeLen(sig.String()))
+				for _, part := range strings.Split(sig.String(), "\n") {
+					b.line(part)
+				}
+				if !broken {
+					mark("func", ln, 0, runeLen(sig.String()))
+				}
 				for _, bl := range strings.Split(strings.TrimRight(bodyText, "\n"), "\n") {
 					b.line(bl)
 				}
